@@ -154,11 +154,47 @@ def check_ligand(case):
     return res
 
 
+def check_na(case):
+    """Nucleic-acid strands: atom conservation (5' phosphate removed by design) and atom sets."""
+    res = Result()
+    desc, ff, opts = case["desc"], case["ff"], case["opts"]
+    s, r = e2e.run_case(desc, ff, opts)
+    res.label(f"ff={ff}", *("dna" if x["dna"] else "rna" for x in desc["na"]))
+    if not r.ok:
+        res.label("run-failed")
+        return res
+    A = e2e.analyse(desc, ff, opts, s, r)
+    for sig, msg in A.problems:
+        if sig.startswith("C03"):
+            res.bad(sig, msg)
+    norm = {"OP1": "O1P", "OP2": "O2P"}
+    for meta in s.strands:
+        for i, letter in enumerate(meta["seq"]):
+            g = ("na", meta["index"], i)
+            entry = A.by_group.get(g)
+            if entry is None:
+                continue
+            exp = topo.expected_na(letter, meta["dna"], i == 0, i == meta["n"] - 1)
+            have = {norm.get(k, k) for k in entry["atoms"]}
+            for name in A.inp[g]:
+                nn = norm.get(name, name)
+                if nn not in have and not (i == 0 and nn in ("P", "O1P", "O2P")):
+                    res.bad("C03:na:lost-heavy", f"{exp['name']} (nucleotide {i} of {''.join(meta['seq'])}): input atom {name} is "
+                            f"not in the final model")  # fmt: skip
+            full = not any(id(a) in A.missing_ids for a in entry["atoms"].values())
+            if full and have != exp["atoms"]:
+                res.bad("C03:na:atomset", f"{ff} {exp['name']}: lacks {sorted(exp['atoms'] - have)}, extra {sorted(have - exp['atoms'])} "
+                        f"(5' phosphate in input: {meta['p5']})")  # fmt: skip
+    res.nontrivial = True
+    return res
+
+
 def parts(tier):
-    from . import c16
+    from . import c02, c16
 
     return [
         Part("ligand", check_ligand, strategy=c16.complex_case(), budget=dict(quick=160, thorough=3000)),
+        Part("na", check_na, strategy=c02.na_case().map(lambda c: dict(c, part="na")), budget=dict(quick=160, thorough=3000)),
         Part("e2e", check, strategy=case(), budget=dict(quick=640, thorough=12000)),
         Part("windows", check, strategy=window_case(), budget=dict(quick=240, thorough=5000)),
     ]
